@@ -349,6 +349,12 @@ BODY_TABLES = {
     "C19": ["km_estimateFootprint", "km_estimateZ0"],
     "C20": ["plot_maybe_slice_level", "utils_get_source_area"],
 }
+BODY_TABLES["C13"] += ["cfg_parse_tower", "cfg_parse_domain", "cfg_parse_met", "cfg_parse_solver", "cfg_parse_parallel", "cfg_load_config"]
+BODY_TABLES["C08"] += ["cfg_parse_tower", "cfg_parse_domain", "cfg_parse_met", "cfg_parse_solver"]
+BODY_TABLES["C16"] += ["cfg_parse_met"]
+BODY_TABLES["C17"] += ["cfg_parse_tower", "cfg_parse_domain"]
+BODY_TABLES["C14"] = ["cfg_parse_parallel", "cfg_parse_met"]
+BODY_TABLES["C10"] += ["cfg_parse_domain"]
 for _p in ("C01", "C02", "C03", "C04", "C05", "C06", "C07", "C10", "C11"):
     BODY_TABLES.setdefault(_p, [])
     BODY_TABLES[_p] += ["solver_steady_state", "solver_ivp"]
